@@ -363,6 +363,14 @@ Theorem C15_bin_bound_clamps : forall (p : bool) (l w x : R) (n : Z), (0 < w)%R 
 Proof. exact bin_bound_spec. Qed.
 Print Assumptions C15_bin_bound_clamps.
 
+(* ... and in a periodic dimension it is the bin that contains the value modulo the period (any number of periods away) *)
+Theorem C15_bin_bound_periodic_wraps : forall (l w x : R) (n : Z), (0 < w)%R -> (0 < n)%Z ->
+  value_to_bin_bound Rops true l w n x = (value_to_bin Rops l w x mod n)%Z /\
+  exists k : Z, (l + IZR (value_to_bin_bound Rops true l w n x) * w <= x - IZR k * (IZR n * w)
+                 < l + (IZR (value_to_bin_bound Rops true l w n x) + 1) * w)%R.
+Proof. exact bin_bound_periodic. Qed.
+Print Assumptions C15_bin_bound_periodic_wraps.
+
 (* value_to_bin_scalar_fraction: the position inside the bin, x = lower + (bin + fraction) * width *)
 Theorem C15_bin_fraction : forall (l w x : R), (0 < w)%R ->
   (0 <= bin_fraction Rops l w x < 1)%R /\
@@ -391,3 +399,40 @@ Theorem C15_extra_bin_sizes : forall (c : cvinfo (T := R)) (p : bool) (l w : R) 
   fst (fst (init_dim Rops c l' u' w)) = (if p then n else n + 1)%Z /\ bin_to_value Rops l' w 0 = l.
 Proof. exact extra_bin_sizes. Qed.
 Print Assumptions C15_extra_bin_sizes.
+
+(* ===================== round 5: the multicolumn round trip with formatted numbers =====================
+   A multicolumn file as it is read back, every number rounded to p significant digits: as long as the rounded lower
+   boundaries and widths stay within the reader's tolerance (1e-10) of the receiving grid's -- which holds whenever
+   1/2 * 10^(1-p) * |x| <= 1e-10 for each of them -- the file is read on the same-grid path and every element comes back
+   as its rounded value, in its own place (with C15_decimal_roundtrip_error: within 1/2 * 10^(1-p) relative). *)
+Theorem C15_roundtrip_multicol_formatted : forall (p fuel : nat) (g g0 : grid R),
+  grid_wf g -> geom_wf g -> grid_wf g0 -> same_geom g0 g ->
+  close_lists (map (dec_round Rops p fuel) (gr_lower g)) (gr_lower g) ->
+  close_lists (map (dec_round Rops p fuel) (gr_width g)) (gr_width g) ->
+  read_multicol Rops false g0 (fmt_toks Rops p fuel (write_multicol Rops g))
+  = Some (set_data g0 (map (dec_round Rops p fuel) (gr_data g)), []).
+Proof. exact multicol_formatted_roundtrip. Qed.
+Print Assumptions C15_roundtrip_multicol_formatted.
+
+Theorem C15_formatted_boundaries_stay_close : forall (p fuel : nat) (xs : list R),
+  Forall (fun x => ((powerRZ 10 (- Z.of_nat fuel) <= Rabs x \/ x = 0) /\ / 2 * powerRZ 10 (1 - Z.of_nat p) * Rabs x <= tol10 Rops)%R) xs ->
+  close_lists (map (dec_round Rops p fuel) xs) xs.
+Proof. exact close_when_small. Qed.
+Print Assumptions C15_formatted_boundaries_stay_close.
+
+(* non-vacuity: boundaries 0 and widths of ex_grid's size satisfy the premise trivially for x = 0; a grid whose boundaries are
+   exactly representable at p digits has close_lists by reflexivity of the bound (dec_round_err with x = 0 shown here) *)
+Example C15_example_close : close_lists (map (dec_round Rops 15 400) [0%R]) [0%R].
+Proof.
+  apply C15_formatted_boundaries_stay_close. constructor; [|constructor]. split; [right; reflexivity|].
+  rewrite Rabs_R0, Rmult_0_r. left. apply tol10_pos.
+Qed.
+
+(* bin_distance_from_boundaries (metadynamics: is the variable on the grid?): non-negative exactly when every value of a
+   non-periodic dimension lies between its boundaries (both included); periodic dimensions do not count *)
+Theorem C15_bin_distance_sign : forall per lower upper w x acc,
+  Forall (fun wi => (0 < wi)%R) w -> length lower = length per -> length upper = length per -> length w = length per ->
+  length x = length per ->
+  ((0 <= bin_distance Rops per lower upper w x acc)%R <-> (0 <= acc)%R /\ all_inside per lower upper x).
+Proof. exact bin_distance_sign. Qed.
+Print Assumptions C15_bin_distance_sign.
